@@ -1,4 +1,5 @@
 import AbraProofs.Lemmas.Sched
+import AbraProofs.Lemmas.SchedSolo
 /-!
 # C10 — results do not depend on how the embedder slices execution
 
@@ -30,26 +31,8 @@ theorem C10_runN_add (step : T → Action T V E) (a b : Nat) (r : Runtime T V E)
     runN step (a + b) r =
       (if (runN step a r).doneNow then runN step a r
        else { runN step b (runN step a r).rt with
-              steps := (runN step a r).steps + (runN step b (runN step a r).rt).steps }) := by
-  unfold runN roundRobin
-  simp only
-  by_cases hdr : (drainNewThreads r).2 = true
-  · simp [hdr]
-  · have hdr' : (drainNewThreads r).2 = false := by simpa using hdr
-    have hn := drain_newThreads r hdr'
-    have hnd := drain_noDone r hd
-    simp only [hdr', Bool.false_eq_true, if_false]
-    rw [loop_add step a b 0 _ hn hnd]
-    by_cases hl : (loop step a 0 (drainNewThreads r).1).2.1 = true
-    · simp [hl]
-    · have hl' : (loop step a 0 (drainNewThreads r).1).2.1 = false := by simpa using hl
-      have hinv := loop_inv step a 0 _ hn hnd
-      have hn2 := hinv.2 hl'
-      simp only [hl', Bool.false_eq_true, if_false]
-      rw [drain_nil _ hn2]
-      simp only [Bool.false_eq_true, if_false]
-      rw [loop_steps_shift step b (loop step a 0 (drainNewThreads r).1).2.2]
-      split <;> simp
+              steps := (runN step a r).steps + (runN step b (runN step a r).rt).steps }) :=
+  runN_add step a b r hd
 
 example : ∃ r : Runtime Nat Nat Nat, NoDone r := ⟨Runtime.new 0, noDone_new 0⟩
 
@@ -104,5 +87,107 @@ theorem C10_host_delay_single (step : T → Action T V E) (b n : Nat) (r : Runti
 example : ∃ (r : Runtime Nat Nat Nat) (m : Thread Nat Nat), r.runQueue = [m] ∧ r.newThreads = [] ∧
     m.isMain = true ∧ m.pending = some 2 ∧ m.done = false :=
   ⟨{ runQueue := [{ id := 0, isMain := true, st := 0, pending := some 2 }], nextId := 1 }, _, rfl, rfl, rfl, rfl, rfl⟩
+
+
+/-- **Programs without tasks (first sentence of the property), for every embedder.**  `drive` is an
+    embedder that makes the `run_n_steps` calls of a schedule — any budgets, and after each call either
+    services the pending host call or, being slow, calls again first — and stops when main finishes or
+    fails.  For a program that never spawns, the output collected by the host, the whole runtime state
+    (program state, result value, error) and the status are, up to servicing a still pending call, those of the reference
+    embedder (`canon`: service at once, one instruction at a time) after the same number of executed
+    instructions — so two schedules that executed equally many instructions cannot be told apart.
+    Partial with respect to the whole property: the hypothesis `NoSpawn` excludes tasks (see the
+    findings below for what happens with tasks). -/
+theorem C10_output_schedule_invariant_partial {H : Type} (step : T → Action T V E) (hs : NoSpawn step)
+    (host : H → Nat → T → H × T) (s₁ s₂ : List (Nat × Bool)) (h : H) (main : T)
+    (hk : (drive step host s₁ h (Runtime.new main) 0).2.2.1 = (drive step host s₂ h (Runtime.new main) 0).2.2.1) :
+    serviceAll host (drive step host s₁ h (Runtime.new main) 0).1 (drive step host s₁ h (Runtime.new main) 0).2.1 =
+    serviceAll host (drive step host s₂ h (Runtime.new main) 0).1 (drive step host s₂ h (Runtime.new main) 0).2.1 := by
+  have hr : Single (Runtime.new main : Runtime T V E) := ⟨rfl, Or.inr ⟨_, rfl, rfl⟩⟩
+  obtain ⟨k₁, h1, e1⟩ := drive_single_canon step hs host s₁ h _ 0 hr
+  obtain ⟨k₂, h2, e2⟩ := drive_single_canon step hs host s₂ h _ 0 hr
+  have : k₁ = k₂ := by omega
+  subst this
+  rw [e1, e2]
+
+/-- the same with the reference embedder named: every schedule is `canon` after as many instructions -/
+theorem C10_schedule_is_reference_partial {H : Type} (step : T → Action T V E) (hs : NoSpawn step)
+    (host : H → Nat → T → H × T) (s : List (Nat × Bool)) (h : H) (main : T) :
+    serviceAll host (drive step host s h (Runtime.new main) 0).1 (drive step host s h (Runtime.new main) 0).2.1 =
+    serviceAll host (canon step host (drive step host s h (Runtime.new main) 0).2.2.1 (h, (Runtime.new main : Runtime T V E))).1
+      (canon step host (drive step host s h (Runtime.new main) 0).2.2.1 (h, Runtime.new main)).2 := by
+  have hr : Single (Runtime.new main : Runtime T V E) := ⟨rfl, Or.inr ⟨_, rfl, rfl⟩⟩
+  obtain ⟨k, h1, e1⟩ := drive_single_canon step hs host s h _ 0 hr
+  have : (drive step host s h (Runtime.new main) 0).2.2.1 = k := by omega
+  rw [this, e1]
+
+example : NoSpawn (fun (t : Nat) => (Action.cont (t + 1) : Action Nat Nat Nat)) := by
+  intro t c t' h; cases h
+
+/-! ### Where slicing does change the output (recorded findings, replayed by the harness)
+
+A host call is serviced only between `run_n_steps` calls, so a thread waiting for the host waits until
+the end of the slice while the other threads keep running.  Two consequences, each with a witness in the
+model (the harness replays the corresponding Abra programs on the implementation):
+* a task that prints races with the end of the main thread (completion is reported as soon as main stops);
+* two writers to one channel are merged in an order that depends on when main's host call was serviced.
+With one reader and one writer per channel and a main thread that joins the printing task (the
+generator's discipline) no difference is found; a proof of that (Kahn determinism of the model) is
+-- OPEN: `∀ sched₁ sched₂, SingleReaderWriter p → both finish → output equal` — not attempted: it needs a
+-- confluence argument over all interleavings, not an induction over one run.
+-/
+namespace Witness
+
+/-- a tiny thread language for witnesses: one register, constants written, the register printed -/
+inductive I where
+  | o | n | r (c : Nat) | w (c v : Nat) | s (child : List I) | h | x
+
+structure MT where
+  code : List I
+  reg : Nat := 0
+
+def mstep : MT → Action MT Nat Nat
+  | ⟨[], r⟩ => .error 0 ⟨[], r⟩
+  | ⟨.o :: c, r⟩ => .cont ⟨c, r⟩
+  | ⟨.n :: c, r⟩ => .newChan fun _ => ⟨c, r⟩
+  | ⟨.r ch :: c, _⟩ => .read ch fun v => ⟨c, v⟩
+  | ⟨.w ch v :: c, r⟩ => .write ch v ⟨c, r⟩
+  | ⟨.s child :: c, r⟩ => .spawn ⟨child, 0⟩ ⟨c, r⟩
+  | ⟨.h :: c, r⟩ => .host 0 ⟨c, r⟩
+  | ⟨.x :: c, r⟩ => .stop ⟨c, r⟩
+
+/-- the host prints the register -/
+def mhost (out : List Nat) (_ : Nat) (t : MT) : List Nat × MT := (out ++ [t.reg], t)
+
+def output (main : List I) (sched : List (Nat × Bool)) : List Nat × Bool :=
+  let d := drive mstep mhost sched [] (Runtime.new ⟨main, 0⟩ : Runtime MT Nat Nat) 0
+  (d.1, match d.2.2.2 with | some .done => true | _ => false)
+
+/-- `task { print }` racing with the end of main -/
+def taskPrint : List I := [.s [.h, .x], .o, .o, .o, .x]
+
+/-- main prints, releases task 1 (`go`), and reads twice from `out`, which both tasks write -/
+def mergeRace : List I :=
+  [.n, .n, .s [.r 0, .w 1 1, .x], .s [.o, .o, .o, .o, .o, .o, .o, .o, .w 1 2, .x],
+   .h, .w 0 0, .r 1, .h, .r 1, .h, .x]
+
+end Witness
+
+open Witness in
+/-- **Finding (task print race).**  Output of a program that prints only from one task depends on the
+    slicing: with budget 1 the task's print is serviced before main stops, with one large budget main
+    stops first and completion is reported with the print still pending.  Both runs end `Done`. -/
+theorem C10_task_print_race_counterexample :
+    output taskPrint (List.replicate 7 (1, true)) = ([0], true) ∧
+    output taskPrint [(100, true)] = ([], true) := by
+  decide
+
+open Witness in
+/-- **Finding (merge race).**  Tasks communicate only through channels and only main prints, yet the
+    order in which two writers reach one channel — and so the output — depends on the slicing. -/
+theorem C10_channel_merge_race_counterexample :
+    output mergeRace (List.replicate 60 (1, true)) = ([0, 1, 2], true) ∧
+    output mergeRace (List.replicate 10 (100, true)) = ([0, 2, 1], true) := by
+  decide
 
 end Abra.Sched
